@@ -61,11 +61,17 @@ Dg ==
     ELSE \* dropped
         IF w.k # "drop" THEN Drift("drop:" \o w.k \o "-allowed:" \o Class(d)) ELSE Ok
 
-\* a byte-level mutant of a datagram: its class is unknown; whatever it is, a forwarded datagram goes to the
-\* outer destination and a rebuilt one to the previous hop
-Mut == IF R.panic = 1 THEN Bad("mutant:panic")
+\* a structure-aware byte-level mutant of a datagram: its class is unknown.  Whatever it is: a forwarded
+\* datagram goes to the outer destination, and that is the host written in the mutant's own SCION address
+\* header (sdst: its raw destination bytes read as an IP address) or, for a service destination, the registered
+\* host A (the raw-bytes reading of a service address is drift, as for the enumerated classes); nothing is forwarded with the dispatcher
+\* function off; a rebuilt packet goes to the previous hop; no panic.
+Mut == IF R.panic = 1 THEN Bad("mutant:panic:" \o R.op)
        ELSE IF R.k = "fwd" /\ R.host # R.outer THEN Bad("reflect:mutant-forwarded-to-non-outer-destination")
        ELSE IF R.k = "fwd" /\ ~on THEN Bad("off:mutant-forwarded")
+       ELSE IF R.k = "fwd" /\ R.dsvc = 1 /\ R.host # "A" /\ R.host # R.sdst THEN Bad("fwd:mutant-not-to-its-scion-destination")
+       ELSE IF R.k = "fwd" /\ R.dsvc = 0 /\ R.host # R.sdst THEN Bad("fwd:mutant-not-to-its-scion-destination")
+       ELSE IF R.k = "fwd" /\ R.dsvc = 1 /\ R.host # "A" THEN Drift("fwd:raw-destination-bytes-read-as-ip")
        ELSE IF R.k = "reply" /\ (R.host # "P" \/ R.port # 30042) THEN Bad("reply:mutant-answered-not-to-previous-hop")
        ELSE Ok
 
